@@ -19,12 +19,6 @@ Definition valid_range (startPos : N) (large : bool) (payloadLen : N) (start siz
    && (start + size <=? ps + Z.of_N payloadLen))%Z.
 
 (* ------------------------------------------------------------------ header bytes *)
-Fixpoint eqb_list (a b : list N) : bool :=
-  match a, b with
-  | [], [] => true
-  | x :: a', y :: b' => (x =? y) && eqb_list a' b'
-  | _, _ => false
-  end.
 
 (* the bytes at startPos are an mdat header announcing payloadLen payload bytes: a 32-bit size
    field (possible when 8 + payloadLen < 2^32) or size = 1 followed by the 64-bit size *)
@@ -91,3 +85,44 @@ Definition chunk_in_payload (tb : stbl) (pstart pend : N) (c : chunk) : bool :=
 
 Definition chunks_in_payload (tb : stbl) (startPos : N) (large : bool) (payloadLen : N) (chunks : list chunk) : bool :=
   forallb (chunk_in_payload tb (startPos + hdr_len large) (startPos + hdr_len large + payloadLen)) chunks.
+
+(* ------------------------------------------------------------------ top-level layout of a file *)
+(* a box header with an arbitrary 4-byte type *)
+Definition canonical_header_n (name : list N) (large : bool) (payloadLen : N) : list N :=
+  if large then be32 1 ++ name ++ be64 (16 + payloadLen)
+  else be32 (8 + payloadLen) ++ name.
+
+Definition header_at_n (file : list N) (startPos : N) (name : list N) (large : bool) (payloadLen : N) : bool :=
+  eqb_list (sub file startPos (hdr_len large)) (canonical_header_n name large payloadLen)
+  && (large || (8 + payloadLen <? 4294967296)) && (length name =? 4)%nat.
+
+Record boxdesc := mkBD { bname : list N; blarge : bool; bplen : N }.
+
+(* the file is exactly a sequence of boxes b1 b2 ... laid out from pos to the end *)
+Fixpoint layout_at (file : list N) (pos : N) (bs : list boxdesc) : bool :=
+  match bs with
+  | [] => pos =? lenN file
+  | b :: t =>
+      header_at_n file pos (bname b) (blarge b) (bplen b)
+      && (pos + hdr_len (blarge b) + bplen b <=? lenN file)
+      && layout_at file (pos + hdr_len (blarge b) + bplen b) t
+  end.
+
+(* what each decode mode is expected to produce for the top-level boxes *)
+Fixpoint views (lazy : bool) (file : list N) (pos : N) (bs : list boxdesc) : list topbox :=
+  match bs with
+  | [] => []
+  | b :: t =>
+      let size := hdr_len (blarge b) + bplen b in
+      (if eqb_list (bname b) name_mdat
+       then TMdat (if lazy then mdat_lazy pos (blarge b) (bplen b) else mdat_mem file pos (blarge b) (bplen b)) size
+       else TBox (bname b) pos size)
+      :: views lazy file (pos + size) t
+  end.
+
+(* the mode-independent part of a top-level box: type, position, size, and for mdat LargeSize *)
+Definition erase (t : topbox) : list N * N * N * bool :=
+  match t with
+  | TBox name sp size => (name, sp, size, false)
+  | TMdat m size => (name_mdat, StartPos m, size, LargeSize m)
+  end.
